@@ -691,7 +691,31 @@ def b_remap(eng, n, st):
     return Val(r, m.ty)
 
 
+def b_card(eng, n, st):
+    """card(S): (spec) the uninterpreted cardinality of a set / of a dict's key set, the one len() uses"""
+    v = eng.ev(n.args[0], st)
+    if isinstance(v.ty, DictT):
+        return Val(card_of(eng, v.ty.has(v.t), v.ty.k), INT)
+    if isinstance(v.ty, SetT):
+        return Val(card_of(eng, v.t, v.ty.elt), INT)
+    raise Unsupported("card() of %s" % v.ty)
+
+
+def b_card_mono(eng, n, st):
+    """card_mono(S, D): the INSTANCE  (every member of S is a key of D) -> card(S) <= card(D)  of the monotonicity of finite cardinality, and
+    card(S) >= 0; meant for contract `axioms` (listed as an assumption: a theorem about finite sets, not about the code)"""
+    s_ = eng.ev(n.args[0], st)
+    d_ = eng.ev(n.args[1], st)
+    hs = s_.t if isinstance(s_.ty, SetT) else s_.ty.has(s_.t)
+    hd = d_.t if isinstance(d_.ty, SetT) else d_.ty.has(d_.t)
+    kty = s_.ty.elt if isinstance(s_.ty, SetT) else s_.ty.k
+    x = z3.FreshConst(kty.sort(), "cmx")
+    return Val(z3.And(card_of(eng, hs, kty) >= 0,
+                      z3.Implies(z3.ForAll([x], z3.Implies(z3.Select(hs, x), z3.Select(hd, x))), card_of(eng, hs, kty) <= card_of(eng, hd, kty))), BOOL)
+
+
 BUILTINS = {
+    "card": b_card, "card_mono": b_card_mono,
     "remap": b_remap,
     "members": b_members,
     "const_map": b_const_map,
@@ -872,9 +896,13 @@ def m_set_add(eng, recv, n, st):
     if isinstance(ty, EmptySetT):
         ty = SetT(x.ty)
         recv = Val(ty.empty(), ty)
+        st.assume(card_of(eng, recv.t, ty.elt) == 0)  # the empty set
     x = eng.coerce(x, ty.elt, st, n, "set element")
     eng.check_alias(n.func.value, n)
-    eng.assign_target(n.func.value, Val(z3.Store(recv.t, x.t, True), ty), st, n)
+    new = z3.Store(recv.t, x.t, True)
+    # insertion law of the (uninterpreted) cardinality: one more element iff it was not a member
+    st.assume(card_of(eng, new, ty.elt) == card_of(eng, recv.t, ty.elt) + z3.If(z3.Select(recv.t, x.t), 0, 1))
+    eng.assign_target(n.func.value, Val(new, ty), st, n)
     return NoneV
 
 
